@@ -38,7 +38,7 @@ def _(c):
     c.cut("if U_new.size > 0:", "U_new", A, {"in_box": INBOX, "pairwise_distinct": DISTINCT}, props=["C17"])
     # ---- C17 clauses (taken from the property statement) ----
     c.ens("in_box", "forall(rows(result), function_logger.D, lambda k, j: lb[0][j] <= result[k][j] and result[k][j] <= ub[0][j])",
-          top=True, props=["C17", "C01"])
+          top=True, props=["C17", "C01", "C18"])
     c.ens("feasible", "forall(rows(result), lambda k: feasx(invt(row(result, k))))", top=True, props=["C17", "C02"])
     c.ens("pairwise_distinct", "forall(rows(result), rows(result), lambda a, b: implies(a != b, not pteq(row(result, a), row(result, b))))",
           top=True, props=["C17"])
